@@ -274,7 +274,7 @@ def byte_mutate(draw, data):
 def mutated_streams(draw, allow_valid=True):
     """(bytes, meta) – meta: {'base': name, 'mode': ..., 'ops': [...]}"""
     corp = C.corpus()
-    mode = draw(st.sampled_from(["payload", "bytes", "bytes", "field", "field", "bitfield", "bitfield", "bitfield", "unit", "field+bytes",
+    mode = draw(st.sampled_from(["payload", "ld_resize", "bytes", "bytes", "field", "field", "bitfield", "bitfield", "bitfield", "unit", "field+bytes",
                                  "random", "prefix+random"]
                                 + (["valid"] if allow_valid else [])))
     if mode == "random":
@@ -299,6 +299,13 @@ def mutated_streams(draw, allow_valid=True):
         data, ops = draw(bitfield_mutate(i))
         meta["ops"] = ops
         return data, meta
+    if mode == "ld_resize":
+        ld = [k for k, e in enumerate(corp) if e["name"] in LD_WHOLE_PICTURES]
+        i = ld[draw(st.integers(0, len(ld) - 1))]
+        meta["base"] = corp[i]["name"]
+        data, ops = draw(ld_resize(i))
+        meta["ops"] = ops
+        return data, meta
     data = entry["data"]
     if mode == "payload":
         # an otherwise conformant stream with an extra padding / auxiliary data unit carrying a drawn payload (long runs,
@@ -315,6 +322,7 @@ def mutated_streams(draw, allow_valid=True):
                     pi["next_parse_offset"] = AUTO
                     pi["previous_parse_offset"] = AUTO
                     pi.pop("padding", None)
+        short = None
         for _ in range(draw(st.integers(1, 2))):
             sq = d["sequences"][draw(st.integers(0, len(d["sequences"]) - 1))]
             units = sq["data_units"]
@@ -330,11 +338,30 @@ def mutated_streams(draw, allow_valid=True):
                 unit = B.DataUnit(parse_info=pi, auxiliary_data=B.AuxiliaryData(bytes=payload))
             else:
                 unit = B.DataUnit(parse_info=B.ParseInfo(parse_code=0x30), padding=B.Padding(bytes=payload))
+            if short is None and draw(st.integers(0, 3)) == 0:
+                # declared length shorter than the 13-byte parse_info itself: serialised with an empty payload and the
+                # consistent offset 13, which is patched in the bytes afterwards (the serialiser is not asked to write
+                # what it may refuse)
+                short = draw(st.integers(0, 12))
+                unit["parse_info"]["next_parse_offset"] = 13
+                (unit.get("padding") or unit.get("auxiliary_data"))["bytes"] = b""
+                meta["ops"].append("short_offset:%d" % short)
             units.insert(j, unit)
             meta["ops"].append("%s:%d bytes" % ("aux" if "auxiliary_data" in unit else "padding", len(payload)))
         try:
             with S.deser_guard():
-                return S.serialise_stream(d), meta
+                data = S.serialise_stream(d)
+            if short is not None:
+                k = 0
+                while True:
+                    k = data.find(b"BBCD", k)
+                    if k < 0:
+                        break
+                    if data[k + 4] in (0x20, 0x21, 0x27, 0x30) and data[k + 5:k + 9] == (13).to_bytes(4, "big"):
+                        data = data[:k + 5] + short.to_bytes(4, "big") + data[k + 9:]
+                        break
+                    k += 1
+            return data, meta
         except Exception as e:
             meta["discarded"] = "%s:%s" % (meta["mode"], type(e).__name__)
             meta["mode"] = "bytes(fallback)"
@@ -471,6 +498,67 @@ def _sint_code(v):
     return out
 
 
+LD_WHOLE_PICTURES = ("ld_min", "ld_tiny_slices", "ld_asym", "ld_fields_420", "ld_16bit")
+
+
+@st.composite
+def ld_resize(draw, i):
+    """Low-delay streams with other slice sizes: slice_bytes_numerator/denominator of every picture are replaced
+    (tiny, zero-byte, uneven slices and larger ones) and the slice data by the right number of drawn bytes, so the
+    stream still parses to its end; parse offsets are recomputed (half of the time)."""
+    from bitarray import bitarray as ba
+
+    data = C.corpus()[i]["data"]
+    fields = field_positions(i)
+    bits = ba()
+    bits.frombytes(data)
+    nums = [k for k, f in enumerate(fields) if f[0] == "slice_bytes_numerator"]
+    num = draw(st.sampled_from([0, 1, 1, 2, 3, 5, 7, 16]))
+    den = draw(st.sampled_from([1, 2, 2, 3, 4, 7]))
+    fill = draw(st.sampled_from(["zeros", "ones", "random", "random"]))
+    seed = draw(st.integers(0, 2 ** 32 - 1))
+    import random
+
+    rnd = random.Random(seed)
+    for k in reversed(nums):
+        sx = [f for f in fields[:k] if f[0] == "slices_x"][-1][3]
+        sy = [f for f in fields[:k] if f[0] == "slices_y"][-1][3]
+        first_q = next(j for j in range(k, len(fields)) if fields[j][0] == "qindex")
+        nxt = next(j for j in range(first_q, len(fields)) if fields[j][0] == "parse_info_prefix")
+        head_tail = bits[fields[k + 1][2]:fields[first_q - 1][2]]  # custom_quant_matrix flag (+ matrix)
+        head = bits[:fields[k][1]] + _uint_code(num) + _uint_code(den) + head_tail
+        head += ba("0" * ((-len(head)) % 8))
+        # a slice of n >= 1 bytes takes 8n bits; a zero-byte slice still has its 7-bit qindex and a 4-bit length field
+        # read (the bounded block that follows has a negative length and reads nothing)
+        nbits = 0
+        for n in range(sx * sy):
+            sb = ((n + 1) * num) // den - (n * num) // den
+            nbits += 8 * sb if sb >= 1 else 11
+        nbits += (-nbits) % 8
+        body = bytes({"zeros": 0, "ones": 255}.get(fill, rnd.getrandbits(8)) for _ in range(nbits // 8))
+        b = ba()
+        b.frombytes(body)
+        bits = head + b + bits[fields[nxt][1]:]
+    out = bytearray(bits.tobytes())
+    ops = ["slice_bytes=%d/%d" % (num, den), fill]
+    if draw(st.booleans()):
+        # recompute the parse offsets from the positions of the parse_info prefixes
+        pos = []
+        k = out.find(b"BBCD")
+        while k >= 0:
+            pos.append(k)
+            k = out.find(b"BBCD", k + 13)
+        prev_in_seq = None
+        for n, p in enumerate(pos):
+            last = out[p + 4] == 0x10
+            nxt_off = 0 if (last or n + 1 == len(pos)) else pos[n + 1] - p
+            out[p + 5:p + 9] = nxt_off.to_bytes(4, "big")
+            out[p + 9:p + 13] = (0 if prev_in_seq is None else p - prev_in_seq).to_bytes(4, "big")
+            prev_in_seq = None if last else p
+        ops.append("fix_offsets")
+    return bytes(out), ops
+
+
 def giant_values():
     """Variable-length integers are unbounded: values of hundreds to tens of thousands of bits (beyond 64-bit
     arithmetic, and beyond the 4300 decimal digits which Python >= 3.11 converts to text by default)."""
@@ -500,6 +588,21 @@ def bitfield_mutate(draw, i):
             forced[a] = draw(st.sampled_from([0, 0, fields[a][3], fields[a][3] + 1, 5, 13]))
             forced[b] = draw(st.sampled_from([0, fields[b][3] + 1, fields[b][3] - 1, fields[b][3], 1 << 20]))
             chosen += [a, b]
+    if not chosen and draw(st.integers(0, 7)) == 0:
+        # the two fields which together fix the slice sizes: tiny, zero-byte and uneven slices
+        ld = [k for k, f in enumerate(fields) if f[0] in ("slice_bytes_numerator", "slice_bytes_denominator")]
+        hq = [k for k, f in enumerate(fields) if f[0] in ("slice_prefix_bytes", "slice_size_scaler")]
+        for k in ld or hq:
+            name = fields[k][0]
+            if name == "slice_bytes_numerator":
+                forced[k] = draw(st.sampled_from([0, 1, 1, 2, 3, 5]))
+            elif name == "slice_bytes_denominator":
+                forced[k] = draw(st.sampled_from([1, 2, 2, 3, 4, 7]))
+            elif name == "slice_prefix_bytes":
+                forced[k] = draw(st.sampled_from([0, 0, 1, 2, 7]))
+            else:
+                forced[k] = draw(st.sampled_from([0, 1, 2, 3]))
+            chosen.append(k)
     for _ in range(draw(st.integers(0 if chosen else 1, 2 if chosen else 3))):
         pool = hot if (hot and draw(st.integers(0, 2)) != 0) else list(range(len(fields)))
         chosen.append(pool[draw(st.integers(0, len(pool) - 1))])
@@ -514,6 +617,9 @@ def bitfield_mutate(draw, i):
             n = end - start
             new = (forced[k] if k in forced else draw(new_value(value, name))) & ((1 << n) - 1)
             code = ba(format(new, "0%db" % n))
+        elif kind == "uint" and k in forced:
+            new = forced[k]
+            code = _uint_code(new)
         elif kind == "uint":
             new = max(0, draw(_new_value(value, name)))
             if draw(st.integers(0, 11)) == 0:
